@@ -17,14 +17,14 @@ for f in benign/$G-b*.diff; do
   ( cd "$SCR/repo" && git checkout -q -- . && git clean -fdq && git apply "$ROOT/$f" ) || { echo "$name APPLY-FAILED" | tee -a benign/RESULTS.txt; continue; }
   ( cd "$SCR/repo" && export GOFLAGS=-mod=mod GOPROXY=off GOSUMDB=off && go build ./... ) || { echo "$name BUILD-FAILED" | tee -a benign/RESULTS.txt; continue; }
   line="$name:"
-  for p in C05 C06 C07 C08 C09 C10 C11 C12 C13 C14 C15 C16 C19; do
+  for p in ${PROPS:-C05 C06 C07 C08 C09 C10 C11 C12 C13 C14 C15 C16 C19}; do
     out=$(VERIF_REPO="$SCR/repo" VERIF_BUDGET_S="$BUD" VERIF_NO_EVIDENCE=1 ./check "$p" quick 2>&1); rc=$?
     if [ $rc -ne 0 ]; then
       sigs=$(echo "$out" | grep "signature:\|HARNESS" | sed 's/.*signature: //' | cut -c1-120 | tr '\n' ' ')
       line="$line $p=rc$rc[$sigs]"
     fi
   done
-  [ "$line" = "$name:" ] && line="$name: all 13 checks quiet"
+  [ "$line" = "$name:" ] && line="$name: all ${PROPS:+of $PROPS }13 checks quiet"
   echo "$line" | tee -a benign/RESULTS.txt
 done
 rm -rf "$SCR"
